@@ -112,10 +112,10 @@ func w2Setup(rc *RunCtx, mode string) simrt.Config {
 	cfg.TraceLimit = 3000
 	c := &w2cfg{mode: mode, chain: map[string]*w2chainRec{}, fwdCodes: map[uint16]bool{}}
 	c.lazy = []int{0, 0, 3600}[r.Choose(3)]
-	c.nClients = 1 + r.Choose(4)
+	c.nClients = 1 + r.Choose(widen(4, 8))
 	for i := 0; i < c.nClients; i++ {
 		c.transports = append(c.transports, r.Choose(4))
-		c.perClient = append(c.perClient, 1+r.Choose(8))
+		c.perClient = append(c.perClient, 1+r.Choose(widen(8, 16)))
 	}
 	for range w2Upstreams {
 		c.upBehav = append(c.upBehav, r.Choose(3))
@@ -144,7 +144,7 @@ var w2names = []string{"a.test.", "A.Test.", "b.test.", "h.test.", "x.test.", "r
 
 func w2GenRules(r *simrt.Rand, c *w2cfg) []sequence.RuleArgs {
 	var rules []sequence.RuleArgs
-	n := 1 + r.Choose(5)
+	n := 1 + r.Choose(widen(5, 8))
 	matchers := []string{"qname a.test", "qname domain:r.test", "qtype 1", "qtype 28 257", "has_resp", "!has_resp", "rcode 2", "qclass 1", "_true", "_false", "! qname h.test"}
 	for i := 0; i < n; i++ {
 		var ra sequence.RuleArgs
